@@ -116,6 +116,34 @@ def gen_fn_job(ch, jid, label, allow_stale_docs=False):
             "inmem": ch.chance(label + ".inmem", 0.12)}
 
 
+def gen_fn_twins(ch, jid0, label):
+    """Two functions with the *same docstring text* and different signatures (other defaults, other annotations, inline):
+    what one parse learns from the signature must not reach the other through anything keyed on the docstring."""
+    desc = render.gen_desc(ch, "conservative", 2, 5, label)
+    desc["returns"] = None
+    for p in desc["params"]:
+        if p["default"] is None:
+            p["default"] = render.gen_default(ch, p["typ"], label + ".fill." + p["name"])
+    names = [p["name"] for p in desc["params"]]
+    documented = ch.subset(label + ".docsub", names, 0.7, at_least=1)
+    style = ch.weighted(label + ".style", [("rest", 3), ("google", 1), ("numpydoc", 1)])
+    jobs = []
+    for k in range(2):
+        d = {"doc": desc["doc"], "kwargs": None, "returns": None, "params": [dict(p) for p in desc["params"]]}
+        if k == 1:
+            for i, p in enumerate(d["params"]):
+                # another type and another default in the signature; the prose stays what it was
+                alt = {"int": "float", "float": "int", "str": "int", "bool": "int"}.get(p["typ"], "int")
+                p["typ"] = alt
+                p["default"] = render.gen_default(ch, alt, "%s.alt%d" % (label, i))
+        fname = "train"
+        src = render.render_function(d, fname, ftype="static", inline_types=True, kwonly=False, documented=documented, style="rest" if style == "rest" else style)
+        truth = {"names": names, "documented": documented, "style": style, "inline": True, "ftype": "static", "kwonly": False,
+                 "params": {p["name"]: {"typ": p["typ"], "doc": p["doc"], "default": p["default"], "announces": False, "computed": False} for p in d["params"]}}
+        jobs.append({"id": jid0 + k, "kind": "parse_function", "src": src, "name": fname, "truth": truth, "inmem": False})
+    return jobs
+
+
 def gen_class_job(ch, jid, label):
     """A class with annotated attributes plus an __init__ whose parameters partly overlap the attributes."""
     n_attr = ch.int(label + ".na", 0, 3)
@@ -342,13 +370,15 @@ def gen_corpus(seed, prop, n):
         i = len(jobs)
         lab = "j%d" % i
         if prop == "C07":
-            kind = ch.weighted(lab, [("fn", 7), ("cls", 3), ("baddoc", 0.5)])
+            kind = ch.weighted(lab, [("fn", 7), ("cls", 3), ("baddoc", 0.5), ("fntwins", 0.6)])
         elif prop == "C18":
             kind = "wrap"
         else:
-            kind = ch.weighted(lab, [("fn", 5), ("cls", 2), ("hop", 2), ("hopgroup", 1.2), ("doc", 1), ("sync", 1), ("baddoc", 0.6), ("plaindoc", 1.5), ("gen", 0.8)])
+            kind = ch.weighted(lab, [("fn", 5), ("cls", 2), ("hop", 2), ("hopgroup", 1.2), ("doc", 1), ("sync", 1), ("baddoc", 0.6), ("plaindoc", 1.5), ("gen", 0.8), ("fntwins", 0.6)])
         if kind == "fn":
             jobs.append(gen_fn_job(ch, i, lab, allow_stale_docs=(prop == "C12")))
+        elif kind == "fntwins":
+            jobs.extend(gen_fn_twins(ch, i, lab))
         elif kind == "cls":
             jobs.append(gen_class_job(ch, i, lab))
         elif kind == "hop":
